@@ -89,10 +89,14 @@ func (fs *FS) fromOSPath(
 
 	// remove root fs path prefix
 	fsPath := toSeparator(separator, osPath)
-	if fs.root != "" && fsPath != fs.root && !strings.HasPrefix(fsPath, fs.root+"/") {
+	root := fs.root
+	if root == "." {
+		root = "" // Sub(".") of the top-level FS: the root directory itself
+	}
+	if root != "" && fsPath != root && !strings.HasPrefix(fsPath, root+"/") {
 		return "", errInvalid
 	}
-	fsPath = strings.TrimPrefix(fsPath, fs.root)
+	fsPath = strings.TrimPrefix(fsPath, root)
 	fsPath = strings.TrimPrefix(fsPath, "/")
 
 	if fsPath == "" {
